@@ -4,10 +4,14 @@
 //! results is determined; the model IO/PollLoop.v is evaluated on the same script in Corr/C17Corr.v.
 //! A last kind of case is unscripted: several threads call wake() while the main thread polls.
 //!
-//! input JSON: {"acts":[["wake",n],["in","abc"],["winch"],["term"],["write",len],["pause",bool],["poll",ms]],
-//!              "end":"drop"|"drop_paused"}   ms = -1: no timeout (only generated when an event is certain)
+//! input JSON: {"acts":[["wake",n],["in","abc"],["winch"],["term"],["write",len],["pause",bool],["poll",ms],
+//!                      ["poll_wake",d]   poll(None) entered first, wake() from another thread d ms later
+//!                      ["poll_winch",d]  poll(None) entered first, SIGWINCH sent to this thread d ms later (EINTR in select)
+//!                      ["hup"]           the peer closes the master side],
+//!              "end":"drop"|"drop_paused"|"run_err"|"render_quit"}
+//!             ms = -1: no timeout (only generated when something is outstanding)
 //!             {"stress":{"threads":t,"wakes":w}}
-//!             {"blocked_wake":true}   the known boundary: wake pending, output stalled, infinite poll
+//!             {"blocked_wake":true}   wake pending, output stalled, infinite poll (returns at once since the third fix)
 #[path = "ptyutil.rs"]
 mod ptyutil;
 
@@ -105,16 +109,15 @@ pub fn run_script(input: &Value) -> Case {
         Ok(s) => s,
         Err(e) => {
             j["impl"] = json!({ "error": e });
-            return Case { coq: "CS [] [OE] false false false".into(), json: j, tags: vec!["infra-error".into()], nontrivial: false };
+            return Case { coq: "CS [] [OE] EDrop false false".into(), json: j, tags: vec!["infra-error".into()], nontrivial: false };
         }
     };
-    let mut paused;
-    let mut pending_out = false;
+    let end = input["end"].as_str().unwrap_or("drop").to_string();
     let mut npolls = 0;
     let mut kinds = std::collections::BTreeSet::new();
     let mut term_kind: Option<u64> = None;
-    let mut term_outstanding = false;
-    let mut unsent_estimate = 0usize;
+    let mut hung_up = false;
+    let main_thread = unsafe { libc::pthread_self() } as usize;
     {
         let term = sess.term.as_mut().unwrap();
         let peer = sess.peer.as_ref().unwrap();
@@ -161,10 +164,9 @@ pub fn run_script(input: &Value) -> Case {
                     acts_coq.push("AWinch".into());
                 }
                 "term" => {
-                    // one kind of termination signal per script (the model merges SIGINT/SIGQUIT/SIGTERM into one flag)
+                    // one kind of termination signal per script is enough since all flagged signals are consumed at once
                     let first = *term_kind.get_or_insert(a[1].as_u64().unwrap_or(0));
-                    term_outstanding = true;
-                    let sig = match first % 3 {
+                    let sig = match (first + a[1].as_u64().unwrap_or(0)) % 3 {
                         0 => libc::SIGTERM,
                         1 => libc::SIGINT,
                         _ => libc::SIGQUIT,
@@ -176,25 +178,53 @@ pub fn run_script(input: &Value) -> Case {
                     let len = a[1].as_u64().unwrap_or(1) as usize;
                     let b: Vec<u8> = (0..len).map(|i| 32 + (i % 90) as u8).collect();
                     let _ = term.write(&b);
-                    pending_out = true;
-                    unsent_estimate += len;
                     acts_coq.push(format!("AWrite {}", len));
                 }
                 "pause" => {
-                    paused = a[1].as_bool().unwrap_or(false);
-                    peer.ctl(Ctl::Pause(paused));
-                    // the peer acts on it within its poll interval
-                    std::thread::sleep(Duration::from_millis(4));
-                    acts_coq.push(format!("APause {}", cbool(paused)));
+                    let p = a[1].as_bool().unwrap_or(false);
+                    peer.pause(p); // acknowledged by the peer thread
+                    acts_coq.push(format!("APause {}", cbool(p)));
                 }
-                "poll" => {
-                    let ms = a[1].as_i64().unwrap_or(0);
+                "hup" => {
+                    peer.ctl(Ctl::Close);
+                    // wait until the slave sees it
+                    let t0 = Instant::now();
+                    while t0.elapsed() < Duration::from_millis(300) {
+                        let mut pfd = libc::pollfd { fd: sess.probe.as_raw_fd(), events: libc::POLLIN, revents: 0 };
+                        unsafe { libc::poll(&mut pfd, 1, 5) };
+                        if pfd.revents & libc::POLLHUP != 0 {
+                            break;
+                        }
+                    }
+                    hung_up = true;
+                    acts_coq.push("AHup".into());
+                }
+                "poll" | "poll_wake" | "poll_winch" => {
+                    let (ms, during, delay): (i64, &str, u64) = match k {
+                        "poll" => (a[1].as_i64().unwrap_or(0), "DNone", 0),
+                        "poll_wake" => (-1, "DWake", a[1].as_u64().unwrap_or(5)),
+                        _ => (-1, "DWinch", a[1].as_u64().unwrap_or(5)),
+                    };
                     let tmo = if ms < 0 { None } else { Some(Duration::from_millis(ms as u64)) };
-                    let (c, v) = if ms < 0 {
-                        // an infinite poll that the script expects to return: a watchdog types a key after two
-                        // seconds so that a lost event shows up as an observation instead of a hung harness
-                        let done = std::sync::atomic::AtomicBool::new(false);
-                        std::thread::scope(|sc| {
+                    let done = std::sync::atomic::AtomicBool::new(false);
+                    let waker = term.waker();
+                    let t0 = Instant::now();
+                    let (c, v) = std::thread::scope(|sc| {
+                        if during == "DWake" {
+                            // the request is issued while this thread sits in poll(None)
+                            sc.spawn(|| {
+                                std::thread::sleep(Duration::from_millis(delay));
+                                let _ = waker.wake();
+                            });
+                        } else if during == "DWinch" {
+                            sc.spawn(|| {
+                                std::thread::sleep(Duration::from_millis(delay));
+                                unsafe { libc::pthread_kill(main_thread as libc::pthread_t, libc::SIGWINCH) };
+                            });
+                        }
+                        if ms < 0 {
+                            // a watchdog types a key after two seconds so that a lost event shows up as an
+                            // observation instead of a hung harness
                             sc.spawn(|| {
                                 let t0 = Instant::now();
                                 while t0.elapsed() < Duration::from_secs(2) {
@@ -206,52 +236,59 @@ pub fn run_script(input: &Value) -> Case {
                                 peer.ctl(Ctl::Pause(false));
                                 peer.ctl(Ctl::Inject(b"Z".to_vec()));
                             });
-                            let t0 = Instant::now();
-                            let r = poll_obs(term, None);
-                            done.store(true, std::sync::atomic::Ordering::SeqCst);
-                            if t0.elapsed() >= Duration::from_millis(1900) {
-                                ("OH".to_string(), json!(format!("blocked for 2 s, then {}", r.1)))
-                            } else {
-                                r
-                            }
-                        })
-                    } else {
-                        poll_obs(term, tmo)
-                    };
+                        }
+                        let r = poll_obs(term, tmo);
+                        done.store(true, std::sync::atomic::Ordering::SeqCst);
+                        if ms < 0 && t0.elapsed() >= Duration::from_millis(1900) {
+                            ("OH".to_string(), json!(format!("blocked for 2 s, then {}", r.1)))
+                        } else {
+                            r
+                        }
+                    });
+                    let elapsed = t0.elapsed().as_millis() as u64;
                     npolls += 1;
-                    if c == "OQ" {
-                        term_outstanding = false;
-                    }
-                    if term.frames_pending() == 0 {
-                        unsent_estimate = 0;
-                    }
                     // bytes sent so far and chunks left when the poll returned: what the kernel's short writes did to
                     // the queue (the loop condition depends on it); given to the model as an oracle
                     let (sent, pend) = (term.stats().send, term.frames_pending());
-                    acts_coq.push(if ms < 0 { format!("APoll None {} {}", sent, pend) } else { format!("APoll (Some {}) {} {}", ms, sent, pend) });
+                    let tm = if ms < 0 { "None".to_string() } else { format!("(Some {})", ms) };
+                    let du = if during == "DNone" { "DNone".to_string() } else { format!("({} {})", during, delay) };
+                    acts_coq.push(format!("APoll {} {} {} {} {}", tm, sent, pend, elapsed, du));
                     obs_coq.push(c);
-                    obs_json.push(v);
+                    obs_json.push(json!({"result": v, "elapsed_ms": elapsed, "send": sent, "pending": pend}));
                 }
                 _ => {}
             }
         }
     }
     // release the terminal object
-    let end = input["end"].as_str().unwrap_or("drop").to_string();
     let peer = sess.peer.take().unwrap();
-    if end == "drop" {
-        peer.ctl(Ctl::Pause(false));
-        std::thread::sleep(Duration::from_millis(4));
-    } else {
-        peer.ctl(Ctl::Pause(true));
-        std::thread::sleep(Duration::from_millis(4));
+    let mut via: Option<(String, Value)> = None;
+    if !hung_up {
+        peer.pause(end == "drop_paused");
+    }
+    if end == "run_err" || end == "render_quit" {
+        // leave through Terminal::run / run_render returning an error, then drop
+        let term = sess.term.as_mut().unwrap();
+        let r: Result<(), surf_n_term::Error> = if end == "run_err" {
+            term.run(Some(Duration::from_millis(0)), |_t, _e| Err::<surf_n_term::TerminalAction<()>, surf_n_term::Error>(surf_n_term::Error::NotATTY))
+        } else {
+            unsafe { libc::raise(libc::SIGTERM) };
+            term.run_render(|_t, _e, _s| Ok::<surf_n_term::TerminalAction<()>, surf_n_term::Error>(surf_n_term::TerminalAction::Wait))
+        };
+        via = Some(match r {
+            Err(surf_n_term::Error::Quit) => ("OQ".into(), json!("quit")),
+            Err(e) => ("OE".into(), json!(format!("error {:?}", e))),
+            Ok(()) => ("ON".into(), json!("ok")),
+        });
     }
     let before_len = peer.received_len();
     let t0 = Instant::now();
     drop(sess.term.take());
     let drop_ms = t0.elapsed().as_millis() as u64;
-    let after = tcgetattr(sess.master_fd);
-    peer.ctl(Ctl::Pause(false));
+    let after = if hung_up { None } else { tcgetattr(sess.master_fd) };
+    if !hung_up {
+        peer.ctl(Ctl::Pause(false));
+    }
     let received = peer.finish();
     let restored = match (&sess.before, &after) {
         (Some(b), Some(a)) => termios_key(b) == termios_key(a),
@@ -263,28 +300,25 @@ pub fn run_script(input: &Value) -> Case {
     let has = |needle: &[u8]| tail.windows(needle.len()).any(|w| w == needle);
     // (once the settings are restored the tty echoes the peer's late answer, so the request need not be last)
     let closing = has(b"\x1b[?1003l") && has(b"\x1b[?1006l") && has(b"\x1b[?1000l") && has(b"\x1b[?25h") && has(b"\x1b[c");
-    let _ = pending_out;
-    tags.push(format!("end={}", end));
+    tags.push(format!("end={}", if hung_up { "hup" } else { &end }));
     tags.push(format!("polls={}", match npolls { 0 => "0", 1..=3 => "1-3", 4..=8 => "4-8", _ => ">8" }));
     for k in &kinds {
         tags.push(format!("has.{}", k));
     }
-    let tail_txt: String = tail.iter().take(200).map(|b| if *b == 0x1b { "^[".to_string() } else if (32..127).contains(b) { (*b as char).to_string() } else { format!("<{}>", b) }).collect();
-    j["impl"] = json!({"polls": obs_json, "restored": restored, "closing_delivered": closing, "drop_ms": drop_ms, "after_drop": tail_txt});
-    if end == "drop_paused" {
-        j["known_class"] = json!(["closing-not-delivered-when-peer-stalls"]);
-    } else if term_outstanding && unsent_estimate > 1024 {
-        // dispose's first poll returns the quit error after one write: how much of the backlog (and of the
-        // closing sequence behind it) that write takes is the kernel's choice
-        j["known_class"] = json!(["closing-not-delivered-when-quit-pending"]);
-        tags.push("end=drop_with_quit_pending_and_backlog".into());
+    // a session that ran into a wait it was not scripted to have (an infinite poll saved by the watchdog, a drop
+    // that sat out dispose's one-second polls with the peer reading)
+    if obs_coq.iter().any(|o| o == "OH") || (end != "drop_paused" && !hung_up && drop_ms > 900) {
+        tags.push("unexpected_wait".into());
     }
-    Case {
-        coq: format!("CS {} {} {} {} {}", clist(acts_coq), clist(obs_coq), cbool(end == "drop_paused"), cbool(restored), cbool(closing)),
-        json: j,
-        tags,
-        nontrivial: npolls >= 2 && kinds.len() >= 3,
-    }
+    let tail_txt: String = tail.iter().rev().take(120).rev().map(|b| if *b == 0x1b { "^[".to_string() } else if (32..127).contains(b) { (*b as char).to_string() } else { format!("<{}>", b) }).collect();
+    j["impl"] = json!({"polls": obs_json, "restored": restored, "closing_delivered": closing, "drop_ms": drop_ms,
+                       "left_through": via.as_ref().map(|v| v.1.clone()), "after_drop_tail": tail_txt});
+    let endk = if hung_up { "EHup" } else if end == "drop_paused" { "EDropPaused" } else { "EDrop" };
+    let coq = match &via {
+        None => format!("CS {} {} {} {} {}", clist(acts_coq), clist(obs_coq), endk, cbool(restored), cbool(closing)),
+        Some((c, _)) => format!("CR {} {} {} {} {}", clist(acts_coq), clist(obs_coq), c, cbool(restored), cbool(closing)),
+    };
+    Case { coq, json: j, tags, nontrivial: npolls >= 2 && kinds.len() >= 3 }
 }
 
 /// several threads call wake() while the main thread polls; afterwards one more wake must still be seen
@@ -351,52 +385,20 @@ fn run_stress(input: &Value) -> Case {
     }
 }
 
-/// the boundary of the property: a wake is pending, output is stalled (the peer does not read), and the
-/// poll has no timeout: it returns only when the peer reads again
-fn run_blocked(input: &Value) -> Case {
-    let _g = SERIAL.lock().unwrap_or_else(|e| e.into_inner());
-    let mut j = input.clone();
-    let mut sess = match open_session() {
-        Ok(s) => s,
-        Err(e) => {
-            j["impl"] = json!({ "error": e });
-            return Case { coq: "CB 0 false".into(), json: j, tags: vec!["infra-error".into()], nontrivial: false };
-        }
-    };
-    let term = sess.term.as_mut().unwrap();
-    let peer = sess.peer.as_ref().unwrap();
-    peer.ctl(Ctl::Pause(true));
-    std::thread::sleep(Duration::from_millis(5));
-    let _ = term.write(&vec![b'x'; 300_000]);
-    let _ = term.waker().wake();
-    // a watchdog lets the peer read again after 250 ms
-    let release_ms = 250u64;
-    std::thread::scope(|sc| {
-        sc.spawn(|| {
-            std::thread::sleep(Duration::from_millis(release_ms));
-            peer.ctl(Ctl::Pause(false));
-        });
-        let t0 = Instant::now();
-        let r = term.poll(None);
-        let ms = t0.elapsed().as_millis() as u64;
-        let wake = matches!(r, Ok(Some(TerminalEvent::Wake)));
-        j["impl"] = json!({"poll_returned_after_ms": ms, "returned_wake": wake, "peer_released_after_ms": release_ms});
-        j["known_class"] = json!(["wake-blocked-by-stalled-output"]);
-        j["coq"] = json!(format!("CB {} {}", ms, cbool(wake)));
-    });
-    let peer = sess.peer.take().unwrap();
-    drop(sess.term.take());
-    let _ = peer.finish();
-    let coq = j["coq"].as_str().unwrap_or("CB 0 false").to_string();
-    j.as_object_mut().unwrap().remove("coq");
-    Case { coq, json: j, tags: vec!["blocked_wake".into()], nontrivial: true }
+/// a wake is pending, output is stalled (the peer does not read) and the poll has no timeout: before the
+/// third fix of this property the poll came back only when the peer read again
+fn blocked_wake_script() -> Value {
+    json!({"acts": [["pause", true], ["write", 300000], ["wake", 1], ["poll", -1], ["poll", 0], ["pause", false], ["poll", 5]], "end": "drop"})
 }
 
 pub fn run(input: &Value) -> Case {
     if !input["stress"].is_null() {
         run_stress(input)
     } else if input["blocked_wake"].as_bool().unwrap_or(false) {
-        run_blocked(input)
+        let mut c = run_script(&blocked_wake_script());
+        c.json["blocked_wake"] = json!(true);
+        c.tags.push("blocked_wake".into());
+        c
     } else {
         run_script(input)
     }
@@ -407,8 +409,9 @@ fn gen_script(rng: &mut Rng) -> Value {
     let n = 3 + rng.below(14);
     let mut paused = false;
     let mut fresh = false; // a request was made since the last poll: something is certainly outstanding
-    let mut term_pending = false;
-    let mut out_pending = false;
+    let mut quiet = true; // nothing can be outstanding: every request so far was followed by enough polls
+    let mut since = 0usize; // polls since the last request
+    let mut owed = 0usize; // upper bound on the events still to come
     for _ in 0..n {
         match rng.below(100) {
             0..=17 => {
@@ -416,49 +419,77 @@ fn gen_script(rng: &mut Rng) -> Value {
                 let top = if rng.chance(1, 5) { 400 } else { 5 };
                 acts.push(json!(["wake", 1 + rng.below(top)]));
                 fresh = true;
+                owed += 1;
             }
             18..=33 => {
                 let len = 1 + rng.below(4) as usize;
                 let s: String = (0..len).map(|_| (b'a' + rng.below(26) as u8) as char).collect();
                 fresh = true;
+                owed += len;
                 acts.push(json!(["in", s]));
             }
             34..=41 => {
                 acts.push(json!(["winch"]));
                 fresh = true;
+                owed += 1;
             }
             42..=45 => {
                 acts.push(json!(["term", rng.below(3)]));
-                term_pending = true;
+                fresh = true;
+                owed += 1;
             }
             46..=55 => {
                 let big = rng.chance(1, 2);
                 let len = if big { 20000 + rng.below(150000) } else { 1 + rng.below(2000) };
                 acts.push(json!(["write", len]));
-                out_pending = true;
             }
             56..=61 => {
                 paused = !paused;
                 acts.push(json!(["pause", paused]));
             }
+            62..=66 => {
+                // a request that arrives while this thread sits in an infinite poll: only when nothing else can be
+                // outstanding, so that the latency measured is the request's
+                if quiet && owed == 0 {
+                    let d = 2 + rng.below(30);
+                    acts.push(json!([if rng.chance(2, 3) { "poll_wake" } else { "poll_winch" }, d]));
+                } else {
+                    acts.push(json!(["poll", 0]));
+                    owed = owed.saturating_sub(1);
+                }
+                fresh = false;
+            }
             _ => {
-                // an infinite poll only when it is certain to return: something is pending and output can drain
-                let inf = fresh && !paused && !term_pending && rng.chance(1, 3);
+                // an infinite poll only when it is certain to return: something is outstanding (since the third fix
+                // also with the peer paused and output stalled)
+                let inf = fresh && rng.chance(1, 3);
                 let ms: i64 = if inf { -1 } else if rng.chance(3, 5) { 0 } else { 1 + rng.below(8) as i64 };
                 acts.push(json!(["poll", ms]));
                 fresh = false;
-                term_pending = false;
-                if !paused {
-                    out_pending = false;
-                }
+                owed = owed.saturating_sub(1);
             }
         }
+        since += 1;
+        quiet = owed == 0;
+        let _ = since;
     }
     // trailing polls so that what is pending gets observed
     for _ in 0..rng.below(5) {
         acts.push(json!(["poll", 0]));
     }
-    json!({"acts": acts, "end": "drop"})
+    let end = match rng.below(12) {
+        0 => "run_err",
+        1 => "render_quit",
+        _ => "drop",
+    };
+    // a hang-up only when no SIGWINCH can be outstanding: its handling asks the (gone) tty for its size and the
+    // error of that ioctl is outside the model
+    if owed == 0 && rng.chance(1, 8) {
+        acts.push(json!(["hup"]));
+        acts.push(json!(["poll", 0]));
+        return json!({"acts": acts, "end": "drop"});
+    }
+    json!({"acts": acts, "end": end})
 }
 
 pub fn generate(rng: &mut Rng, n: usize, _tier: &str) -> Vec<Value> {
@@ -476,6 +507,10 @@ pub fn generate(rng: &mut Rng, n: usize, _tier: &str) -> Vec<Value> {
     v.push(json!({"acts": [["pause", true], ["write", 300000], ["poll", 3]], "end": "drop_paused"}));
     v.push(json!({"stress": {"threads": 4, "wakes": 300}}));
     v.push(json!({"blocked_wake": true}));
+    v.push(json!({"acts": [["poll_wake", 20], ["poll", 0], ["poll_winch", 15], ["poll", 0]], "end": "drop"}));
+    v.push(json!({"acts": [["in", "k"], ["hup"], ["poll", 0], ["poll", 0]], "end": "drop"}));
+    v.push(json!({"acts": [["wake", 1], ["poll", 0]], "end": "run_err"}));
+    v.push(json!({"acts": [["write", 5000], ["poll", 0], ["winch"]], "end": "render_quit"}));
     while v.len() < n {
         if rng.chance(1, 25) {
             v.push(json!({"stress": {"threads": 2 + rng.below(6), "wakes": 50 + rng.below(2000)}}));
@@ -493,7 +528,52 @@ pub fn batch(inputs: &[Value]) -> Batch {
         case_type: "c17_case",
         report_fn: "c17_report",
         rule: "scripted session with >=2 polls and >=3 kinds of actions (wake / input / signals / output / pause / poll), or a multi-thread wake stress run; distinct by input",
-        cases: inputs.iter().map(run).collect(),
+        cases: run_all(inputs),
         preamble: String::new(),
     }
+}
+
+/// Every session is bounded: a process-wide watchdog ends the harness (exit code 97, the session in flight is in
+/// current_case.json and becomes the failing input) when one session takes more than 12 s, and after 6 sessions
+/// with unexpected waits the remaining ones are not run (the ones seen are reported), so that a broken tree is
+/// reported within a few minutes.
+fn run_all(inputs: &[Value]) -> Vec<Case> {
+    use std::sync::atomic::{AtomicU64, Ordering};
+    use std::sync::Arc;
+    let dir = std::env::var("SNT_HARNESS_OUT").ok();
+    let started = Arc::new(AtomicU64::new(0)); // ms since t0 at which the current session started; 0 = none
+    let t0 = Instant::now();
+    {
+        let started = started.clone();
+        std::thread::spawn(move || loop {
+            std::thread::sleep(Duration::from_millis(200));
+            let s = started.load(Ordering::SeqCst);
+            if s != 0 && t0.elapsed().as_millis() as u64 > s + 12_000 {
+                eprintln!("c17: a pty session did not finish within 12 s");
+                std::process::exit(97);
+            }
+        });
+    }
+    let mut cases = vec![];
+    let mut waits = 0;
+    for i in inputs {
+        if let Some(d) = &dir {
+            let _ = std::fs::write(format!("{}/current_case.json", d), i.to_string());
+        }
+        started.store(t0.elapsed().as_millis() as u64 + 1, Ordering::SeqCst);
+        let c = run(i);
+        started.store(0, Ordering::SeqCst);
+        if c.tags.iter().any(|t| t == "unexpected_wait") {
+            waits += 1;
+        }
+        cases.push(c);
+        if waits >= 6 {
+            eprintln!("c17: {} sessions ran into unexpected waits, the remaining {} are not run", waits, inputs.len() - cases.len());
+            break;
+        }
+    }
+    if let Some(d) = &dir {
+        let _ = std::fs::remove_file(format!("{}/current_case.json", d));
+    }
+    cases
 }
